@@ -949,6 +949,7 @@ func runC13(c *Ctx) {
 			c.Check(fname(ins)+"#cached-shortcut-distinguishes-blobs-from-nodes", ins.Pos(), bad == 0, ifelse(bad == 0, fmt.Sprintf("all %d skipping paths tested the kind of the cached or the new entry", nSkip), fmt.Sprintf("%d of %d paths skip the insertion because the hash is already cached without asking whether the cached entry is a raw blob: a contract whose code is the RLP of a storage-trie root node (CodeHash == Root) is cached childless first, and after commit + reopen all slots below that node are missing", bad, nSkip)))
 		}
 	}
+	c13RoundE(c, c.W)
 }
 
 // sameNode: two base values denote the same node (same SSA value, or loads of the same local).
@@ -986,5 +987,103 @@ func c13Variants() []Variant {
 	return []Variant{
 		{Name: "insert-in-place", File: "trie/trie.go", Old: "		n = n.copy()\n		n.flags = t.newFlag()\n		n.Children[key[0]] = nn\n		return true, n, nil\n\n	case nil:", New: "		n.flags = t.newFlag()\n		n.Children[key[0]] = nn\n		return true, n, nil\n\n	case nil:", Rule: "C13.T1", Construct: "insert"},
 		{Name: "delete-without-dirty-flag", File: "trie/trie.go", Old: "		n = n.copy()\n		n.flags = t.newFlag()\n		n.Children[key[0]] = nn\n\n", New: "		n = n.copy()\n		n.Children[key[0]] = nn\n\n", Rule: "C13.T2", Construct: "delete"},
+	}
+}
+
+// c13RoundE: T14 (the value slot of a branch is not hashed as a child) and T15 (DeriveSha keys are RLP).
+func c13RoundE(c *Ctx, w *World) {
+	c.Rule("C13.T14", "BOUND", "the root is the standard Merkle-Patricia root: when the hasher collapses a branch node it hashes the 16 child references only — the loop that hands n.Children[i] to hasher.hash stops at index 16, the value slot, which is embedded verbatim. Run through hash()/store(), a value of 32 bytes or more at a key that is a prefix of other keys is replaced by its hash: a non-standard root, and the hash instead of the value after reopening")
+	c.Min(1)
+	{
+		hc := w.Fn("trie", "hasher", "hashChildren")
+		hashM := w.FuncObj("trie", "hasher", "hash")
+		c.sawFunc(fname(hc))
+		n := 0
+		for _, ci := range callsTo(hc, hashM) {
+			// the innermost loop around the call
+			var hdr *ssa.BasicBlock
+			for _, b := range hc.Blocks {
+				if isLoopHeader(b) && naturalLoop(b)[ci.Block()] {
+					if hdr == nil || naturalLoop(hdr)[b] {
+						hdr = b
+					}
+				}
+			}
+			if hdr == nil {
+				continue // the short node's single child
+			}
+			n++
+			c.sites++
+			bound := int64(-1)
+			for b := range naturalLoop(hdr) {
+				if iff, ok := b.Instrs[len(b.Instrs)-1].(*ssa.If); ok {
+					if bo, isB := iff.Cond.(*ssa.BinOp); isB && (bo.Op == token.LSS || bo.Op == token.LEQ) {
+						if k, isK := constInt(bo.Y); isK {
+							// is this the exit test of the loop?
+							exits := false
+							for _, sc := range b.Succs {
+								if !naturalLoop(hdr)[sc] {
+									exits = true
+								}
+							}
+							if exits {
+								bound = k
+								if bo.Op == token.LEQ {
+									bound = k + 1
+								}
+							}
+						}
+					}
+				}
+			}
+			ok := bound >= 1 && bound <= 16
+			c.Check(fmt.Sprintf("%s#child-loop-%d-stops-before-the-value-slot", fname(hc), n), ci.Pos(), ok, ifelse(ok, fmt.Sprintf("the loop hashes slots 0..%d", bound-1), fmt.Sprintf("the loop that hashes the children of a branch runs up to index %d: slot 16 holds the node's value, not a child reference, and must be embedded as it is", bound-1)))
+		}
+		if n == 0 {
+			c.Undecided(fname(hc)+"#child-loop", hc.Pos(), "no loop handing the children of a branch node to hasher.hash found")
+		}
+	}
+
+	c.Rule("C13.T15", "PROVENANCE", "the transaction / receipt root is the standard index trie: the key under which DeriveSha stores element i is produced by the rlp package (rlp.Encode / EncodeToBytes / Append* of the index), not by a private re-implementation of the integer encoding — a size computed one byte short makes indices 256… non-canonical and lets 384…511 overwrite 128…255, so the root stops committing to those elements")
+	c.Min(1)
+	{
+		ds := w.Fn("core/types", "", "DeriveSha")
+		c.sawFunc(fname(ds))
+		n := 0
+		for _, ci := range callInstrs(ds) {
+			o := calleeObj(ci)
+			if o == nil || o.Name() != "Update" || o.Pkg() == nil || o.Pkg().Path() != full("trie") {
+				continue
+			}
+			n++
+			c.sites++
+			key := callArgs(ci)[0]
+			isRlp := func(cc ssa.CallInstruction) bool {
+				co := calleeObj(cc)
+				return co != nil && co.Pkg() != nil && co.Pkg().Path() == full("rlp")
+			}
+			ok := derivesFrom(key, func(x ssa.Value) bool {
+				cc, isC := x.(*ssa.Call)
+				return isC && isRlp(cc)
+			})
+			if !ok {
+				// a buffer the rlp package wrote into before the update
+				for _, cj := range callInstrs(ds) {
+					if !isRlp(cj) || !instrDominates(cj.(ssa.Instruction), ci.(ssa.Instruction)) {
+						continue
+					}
+					for _, a := range cj.Common().Args {
+						buf := stripConv(a)
+						if derivesFrom(key, func(x ssa.Value) bool { return x == buf }) {
+							ok = true
+						}
+					}
+				}
+			}
+			c.Check(fname(ds)+"#keys-are-rlp-of-the-index", ci.Pos(), ok, ifelse(ok, "the key is written by the rlp package", "the key of an element does not come from the rlp package: a private integer encoder decides the index keys of the transaction / receipt trie"))
+		}
+		if n == 0 {
+			c.Undecided(fname(ds)+"#keys-are-rlp-of-the-index", ds.Pos(), "no trie.Update call found in DeriveSha")
+		}
 	}
 }
